@@ -24,6 +24,7 @@ ZT == TLCEval([k \in 1..Len(Loads) |-> IF IsFixedLoad(k) THEN FixedZone(Effectiv
 \* what is demanded of the loader for these bytes
 Class == TLCEval([k \in 1..Len(Loads) |->
   IF IsFixedLoad(k) THEN "zic"
+  ELSE IF Dec[k].ok /\ Dec[k].cut THEN "mustfail"             \* the file ends inside (or before) its footer: truncated
   ELSE IF ~StructOk(Dec[k]) THEN "other"
   ELSE IF Dec[k].leapcnt # 0 THEN "mustfail"
   ELSE IF ZT[k].rule.kind = "bad" THEN (IF Unconstrained(Dec[k].footer) THEN "other" ELSE "mustfail")
